@@ -7,7 +7,7 @@
    model side - where the implementation iterates a set, the check sweeps PYTHONHASHSEED. *)
 From Coq Require Import ZArith QArith List Bool Permutation Arith.
 From VL Require Import Prelude.Sx Prelude.PyDict Prelude.GDict Model.GetNBest Model.HighestAverages Model.Condorcet Model.Convert
-     Proofs.GetNBest_proofs Proofs.QOrd Proofs.Order_proofs Proofs.Convert_proofs Proofs.HA_proofs Proofs.Divisor_proofs Proofs.HAPerm_proofs.
+     Proofs.GetNBest_proofs Proofs.QOrd Proofs.Order_proofs Proofs.Convert_proofs Proofs.HA_proofs Proofs.Divisor_proofs Proofs.HAPerm_proofs Proofs.HARename_proofs.
 Import ListNotations.
 Close Scope Q_scope.
 Close Scope Z_scope.
@@ -63,6 +63,13 @@ Proof.
   exact (ha_perm d votes votes' caps prev n Hp Hm Hv Hnd Hprev Hperm).
 Qed.
 
+(* ... and it commutes with every injective renaming of the parties: the evaluation on renamed votes, previous gains and
+   caps is the renamed evaluation (gains, tie members) - exact equality, any divisor function *)
+Theorem C10_highest_averages_rename : forall (f : C -> C), (forall a b, f a = f b -> a = b) ->
+  forall (d : Z -> Q) (votes : list (C * Q)) (caps prev : list (C * Z)) (n : Z),
+  evaluate d (renl f votes) n (renl f prev) (renl f caps) = ren_result f (evaluate d votes n prev caps).
+Proof. intros f Hf d votes caps prev n. exact (evaluate_ren f Hf d votes caps n prev). Qed.
+
 (* clause decided per explored case by the metamorphic streams (not proved) *)
 Definition C10_schulze_order_full_statement : Prop :=
   forall v order order' n, Permutation order order' -> NoDup order ->
@@ -81,3 +88,4 @@ Print Assumptions C10_symmetric.
 Print Assumptions C10_rename.
 Print Assumptions C10_ballot_order.
 Print Assumptions C10_highest_averages_order.
+Print Assumptions C10_highest_averages_rename.
